@@ -247,6 +247,125 @@ theorem mix_no_feed (solve : Solver α) (recv : St α) (rp : List Phase) (ins : 
   unfold mixFrom
   simp [hN]
 
+/-! #### `mix_from` in full: `vle=True`, `energy_balance=False` -/
+
+/-- With the energy balance on and no equilibrium, the full model is `mixFrom` (so every theorem
+above speaks about it). -/
+theorem mixFromX_eq_mixFrom (solve : Solver α) (vleRun : VleRun α) (recv : St α) (rp : List Phase)
+    (ins : List (Inlet α)) (Q : α) (cp : Bool) :
+    mixFromX solve vleRun recv rp ins Q cp true false = mixFrom solve recv rp ins Q cp := by
+  simp [mixFromX]
+
+/-- The equilibrium hypothesis: an `H, P` flash that returns leaves the stream with the enthalpy it
+was asked for, up to `ε` (`Hv` = enthalpy of the receiver's material as the flash left it). -/
+def VleSound (Hv : VleRes α → α) (ε : α) (vleRun : VleRun α) : Prop :=
+  ∀ (H P : α) (r : VleRes α), vleRun (.HP H P) = some r → |Hv r - H| ≤ ε
+
+/-- **mix_vle_energy.**  `mix_from(..., vle=True)` with the energy balance on and two or more
+non-empty inlets: the flash is asked for exactly `H = Q + Σ heat + Σ H_in` at `P = min P_in`; when
+it returns, the receiver has the flash's temperature, the phases that hold material, and that
+enthalpy up to the flash residual. -/
+theorem mix_vle_energy {Hv : VleRes α → α} {ε : α} {vleRun : VleRun α} (hv : VleSound Hv ε vleRun)
+    (solve : Solver α) (recv : St α) (rp : List Phase) (ins : List (Inlet α)) (Q : α) (cp : Bool)
+    {f g : Feed α} {fs : List (Feed α)} (hf : feeds ins = f :: g :: fs)
+    (hok : (mixFromX solve vleRun recv rp ins Q cp true true).out = .ok) :
+    ∃ r, vleRun (.HP (sumFrom (heatSum Q ins) ((f :: g :: fs).map (·.H))) (minList f.P ((g :: fs).map (·.P)))) = some r ∧
+      (mixFromX solve vleRun recv rp ins Q cp true true).st.T = r.T ∧
+      (mixFromX solve vleRun recv rp ins Q cp true true).st.ph = reducePhases r.nonEmpty ∧
+      (mixFromX solve vleRun recv rp ins Q cp true true).target
+        = some (Q + (heats ins).sum + ((feeds ins).map (·.H)).sum) ∧
+      |Hv r - (Q + (heats ins).sum + ((feeds ins).map (·.H)).sum)| ≤ ε := by
+  have e : Q + (heats ins).sum + ((feeds ins).map (·.H)).sum
+      = sumFrom (heatSum Q ins) ((f :: g :: fs).map (·.H)) := by
+    rw [hf, sumFrom_eq, heatSum_eq]
+  rw [e]
+  unfold mixFromX at hok ⊢
+  simp only [Bool.not_true, Bool.and_false, Bool.false_eq_true, ↓reduceIte, hf, List.map_cons] at hok ⊢
+  split at hok
+  · simp at hok
+  · rename_i r hr
+    rw [hr]
+    exact ⟨r, rfl, rfl, rfl, rfl, hv _ _ _ hr⟩
+
+/-- `vleSpecX` (what the driver prints as the flash specification) is the specification of `mix_vle_energy`. -/
+theorem vleSpecX_HP (recv : St α) (ins : List (Inlet α)) (Q : α) {f g : Feed α} {fs : List (Feed α)}
+    (hf : feeds ins = f :: g :: fs) :
+    vleSpecX recv ins Q true true
+      = some (.HP (sumFrom (heatSum Q ins) ((f :: g :: fs).map (·.H))) (minList f.P ((g :: fs).map (·.P)))) := by
+  simp [vleSpecX, hf]
+
+/-- **mix_vle_T_spec.**  With `vle=True` and the energy balance off the flash is a `T, P` flash at the
+receiver's own temperature and the minimum pressure; an answer at that temperature leaves T where it was. -/
+theorem mix_vle_T_spec (solve : Solver α) (vleRun : VleRun α) (recv : St α) (rp : List Phase)
+    (ins : List (Inlet α)) (Q : α) (cp : Bool) {f g : Feed α} {fs : List (Feed α)}
+    (hf : feeds ins = f :: g :: fs)
+    (hok : (mixFromX solve vleRun recv rp ins Q cp false true).out = .ok) :
+    ∃ r, vleRun (.TP recv.T (minList f.P ((g :: fs).map (·.P)))) = some r ∧
+      (mixFromX solve vleRun recv rp ins Q cp false true).st.T = r.T ∧
+      (mixFromX solve vleRun recv rp ins Q cp false true).target = none := by
+  unfold mixFromX at hok ⊢
+  simp only [Bool.false_and, Bool.false_eq_true, ↓reduceIte, hf, List.map_cons] at hok ⊢
+  split at hok
+  · simp at hok
+  · rename_i r hr
+    rw [hr]
+    exact ⟨r, rfl, rfl, rfl⟩
+
+/-- **mixX_pressure_min.**  Whatever the flags (`energy_balance`, `vle`, `conserve_phases`) and the
+outcome: with two or more non-empty inlets the receiver's pressure is the smallest inlet pressure. -/
+theorem mixX_pressure_min (solve : Solver α) (vleRun : VleRun α) (recv : St α) (rp : List Phase)
+    (ins : List (Inlet α)) (Q : α) (cp eb vle : Bool) {f g : Feed α} {fs : List (Feed α)}
+    (hf : feeds ins = f :: g :: fs) :
+    (∀ f' ∈ feeds ins, (mixFromX solve vleRun recv rp ins Q cp eb vle).st.P ≤ f'.P) ∧
+    (∃ f' ∈ feeds ins, (mixFromX solve vleRun recv rp ins Q cp eb vle).st.P = f'.P) := by
+  by_cases hc : (eb && !vle) = true
+  · have : mixFromX solve vleRun recv rp ins Q cp eb vle = mixFrom solve recv rp ins Q cp := by
+      simp [mixFromX, hc]
+    rw [this]
+    exact mix_pressure_min solve recv rp ins Q cp (by simp [hf])
+  · have key : ∀ (p : α), p = minList f.P (List.map (·.P) (g :: fs)) →
+        (∀ f' ∈ f :: g :: fs, p ≤ f'.P) ∧ (∃ f' ∈ f :: g :: fs, p = f'.P) := by
+      intro p h
+      rw [h]
+      constructor
+      · intro f' hf'
+        rcases List.mem_cons.mp hf' with rfl | hf'
+        · exact minList_le_head _ _
+        · exact minList_le_mem _ _ _ (List.mem_map_of_mem hf')
+      · have hm := minList_mem f.P (List.map (·.P) (g :: fs))
+        rcases List.mem_cons.mp hm with h0 | h0
+        · exact ⟨f, by simp, h0⟩
+        · obtain ⟨f', hf', he⟩ := List.mem_map.mp h0
+          exact ⟨f', List.mem_cons_of_mem _ hf', he.symm⟩
+    unfold mixFromX
+    simp only [hc, Bool.false_eq_true, ↓reduceIte, hf]
+    cases vle with
+    | false =>
+      simp only [Bool.false_eq_true, ↓reduceIte]
+      exact key _ rfl
+    | true =>
+      simp only [↓reduceIte]
+      split
+      · exact key _ rfl
+      · exact key _ rfl
+
+/-- **mix_no_energy_frame.**  `energy_balance=False` without equilibrium: the call returns, nothing is
+solved, nothing is assigned and the temperature stays; with at most one non-empty inlet the
+pressure stays too. -/
+theorem mix_no_energy_frame (solve : Solver α) (vleRun : VleRun α) (recv : St α) (rp : List Phase)
+    (ins : List (Inlet α)) (Q : α) (cp : Bool) :
+    (mixFromX solve vleRun recv rp ins Q cp false false).out = .ok ∧
+    (mixFromX solve vleRun recv rp ins Q cp false false).k = 0 ∧
+    (mixFromX solve vleRun recv rp ins Q cp false false).target = none ∧
+    (mixFromX solve vleRun recv rp ins Q cp false false).st.T = recv.T ∧
+    ((feeds ins).length ≤ 1 → (mixFromX solve vleRun recv rp ins Q cp false false).st.P = recv.P) := by
+  unfold mixFromX
+  simp only [Bool.false_and, Bool.false_eq_true, ↓reduceIte]
+  match hf : feeds ins with
+  | [] => simp
+  | [f] => simp
+  | f :: g :: fs => simp
+
 /-- **separate_energy.**  When `separate_out` of another non-empty stream (not `None`, not the stream
 itself) returns and material is left, the enthalpy of what is left is the difference of the two
 enthalpies read before, up to the setter residual. -/
@@ -432,10 +551,24 @@ def recv₀ : St ℚ := { ph := .single .l, T := 1, P := 9, empty := true }
 
 example : feeds ins₀ ≠ [] := by simp [ins₀, feeds]
 example : (mixFrom solve₀ recv₀ [.l] ins₀ 4 false).out = .ok := by
-  simp [mixFrom, ins₀, feeds, heatSum, setEnergy, solve₀, isZero, recv₀, sumFrom, mainPhase]
+  simp [mixFrom, ins₀, feeds, heatSum, setEnergy, solve₀, isZero, recv₀, sumFrom]
 example : (mixFrom solve₀ recv₀ [.l] ins₀ 4 false).st.T = 25 ∧ (mixFrom solve₀ recv₀ [.l] ins₀ 4 false).st.P = 3 := by
-  simp [mixFrom, ins₀, feeds, heatSum, setEnergy, solve₀, isZero, recv₀, sumFrom, mainPhase, minList]
+  simp [mixFrom, ins₀, feeds, heatSum, setEnergy, solve₀, isZero, recv₀, sumFrom, minList]
   norm_num
+
+/-- an exact toy flash (`H = 2 T`, everything ends up in both phases): `mix_vle_energy` is about a run that returns -/
+def vle₀ : VleRun ℚ := fun spec => match spec with
+  | .HP H _ => some ⟨H / 2, [.g, .l]⟩
+  | .TP T _ => some ⟨T, [.l]⟩
+example : VleSound (fun r : VleRes ℚ => 2 * r.T) 0 vle₀ := by
+  intro H P r h
+  simp only [vle₀, Option.some.injEq] at h
+  subst h
+  have : 2 * (H / 2) - H = 0 := by ring
+  simp [this]
+example : (mixFromX solve₀ vle₀ recv₀ [.l] ins₀ 4 false true true).out = .ok ∧
+    (mixFromX solve₀ vle₀ recv₀ [.l] ins₀ 4 false true true).st.ph = .multi [.g, .l] := by
+  simp [mixFromX, ins₀, feeds, heatSum, vle₀, reducePhases, canon, allPhases, groupRep]
 
 /-- a solver that fails on liquids: the fallback flips the phase and the read-back theorem still applies -/
 def solve₁ : Solver ℚ := fun _ ph x => if ph = .single .l then none else some (x / 2)
